@@ -15,8 +15,8 @@ import common as C
 
 TIERS = {
     # MC cfg, sample (every n-th fast-path-ok case is re-validated by TLC anyway), random events, tlc timeout
-    "quick": dict(cfg="MC_XPath_quick.cfg", sample=40, rnd=1500, groups=400, timeout=900),
-    "thorough": dict(cfg="MC_XPath_thorough.cfg", sample=300, rnd=60000, groups=12000, timeout=3000),
+    "quick": dict(cfg="MC_XPath_quick.cfg", sample=40, rnd=3000, groups=800, timeout=900),
+    "thorough": dict(cfg="MC_XPath_thorough.cfg", sample=300, rnd=120000, groups=25000, timeout=3000),
 }
 
 
@@ -113,6 +113,18 @@ def run_paths(prop, tier):
         stats = json.load(open(stats_p))
         if stats["cases"] == 0:
             raise C.ToolError("no REPLAY cases")
+        # vacuity guard: every family of the grammar must have produced cases, and a fair share of the
+        # expected values must be non-trivial (non-empty node-sets or scalars)
+        want = {"p1", "un", "fl"} if "tiny" in t["cfg"] else {"p1", "p2", "un", "fl", "cmp", "fn", "ctx", "ns", "kw", "ar", "ar3"}
+        if tier == "thorough":
+            want = want | {"g1"}
+        missing = sorted(f for f in want if stats["families"].get(f, 0) == 0)
+        if missing:
+            raise C.ToolError("families without cases: %s" % missing)
+        if stats["nontrivial"] * 5 < stats["cases"]:
+            raise C.ToolError("only %d of %d cases are non-trivial" % (stats["nontrivial"], stats["cases"]))
+        if stats.get("bad_docs", 0):
+            C.log("note: %d documents of the model were rejected by the parser" % stats["bad_docs"])
         # random driver: larger documents and expressions, metamorphic union groups
         rnd = os.path.join(wd, "xp.rnd")
         C.run_harness(["xp-record", "--seed", str(C.seed()), "--n", str(t["rnd"]), "--groups", str(t["groups"]),
